@@ -68,7 +68,11 @@ async def do_op(sim, request):
             from ahbicht.content_evaluation.evaluationdatatypes import EvaluationContext
 
             contexts = {k: EvaluationContext(scope=f"$['state-{v}']") for k, v in op["contexts"].items()}
-        return await rc_evaluator.evaluate_conditions(op["keys"], evaluatable_data_provider(), contexts)
+        if contexts is None:
+            return await rc_evaluator.evaluate_conditions(op["keys"], evaluatable_data_provider())
+        return await rc_evaluator.evaluate_conditions(
+            op["keys"], evaluatable_data_provider(), condition_keys_with_context=contexts
+        )
     if kind == "fc_direct":
         return await fc_evaluator.evaluate_format_constraints(op["keys"])
     if kind == "hints_direct":
@@ -278,6 +282,12 @@ def generate(seed, tier="quick"):
     big = tier == "thorough" and seed % 4 == 0  # deeper bounds for a quarter of the thorough runs
     rc, hints, fcs = key_universe(rnd, rnd.randint(2, 9 if big else 5), rnd.randint(1, 4 if big else 3),
                                   rnd.randint(1, 5 if big else 3))
+    wide_rnd = rng(seed, "c12-wide")  # (a stream of its own: the other scenarios stay what they were)
+    wide_world = wide_rnd.random() < 0.06
+    if wide_world:
+        # more keys at one gather site than any batch size a library would plausibly choose
+        rc, hints, fcs = key_universe(wide_rnd, wide_rnd.randint(17, 40), wide_rnd.randint(17, 30),
+                                      wide_rnd.randint(17, 30))
     flavour = "cer" if rnd.random() < 0.25 else "sim"
     world = {
         "flavour": flavour,
@@ -339,6 +349,26 @@ def generate(seed, tier="quick"):
             follow_op = _gen_op(rnd, rc, hints, fcs, package_kinds, flavour)
             if not follow_op.get("drop") and follow_op["op"] != "valid":
                 request["follow_ups"] = [{"op": follow_op, "cer": None, "peer_set": request.get("peer_set", 0)}]
+    complete = [r for r in requests if not r["op"].get("drop")]  # (a staged failure has taken keys out of the data)
+    if wide_world and complete:
+        target = wide_rnd.choice(complete)
+        target.pop("follow_ups", None)
+        kind = wide_rnd.choice(["rc_direct", "rc_direct", "fc_direct", "hints_direct", "rc_eval", "rc_eval"])
+        pool = {"rc_direct": rc, "rc_eval": rc, "fc_direct": fcs, "hints_direct": hints}[kind]
+        keys = list(pool)
+        wide_rnd.shuffle(keys)
+        if kind == "rc_eval":
+            ast = ("k", keys[0])
+            for key in keys[1:]:
+                ast = (wide_rnd.choice(["and", "or", "xor"]), ast, ("k", key))
+            for key in keys:  # (determined states, so that the keys' own values say what the result is)
+                if target["cer"]["requirement_constraints"][key] == "UNKNOWN":
+                    target["cer"]["requirement_constraints"][key] = wide_rnd.choice(["FULFILLED", "UNFULFILLED"])
+            target["op"] = {"op": "rc_eval", "ast": ast, "expr": render(ast, wide_rnd, "plain"), "as_tree": False}
+        elif kind == "fc_direct":
+            target["op"] = {"op": "fc_direct", "keys": keys, "text": "abc"}
+        else:
+            target["op"] = {"op": kind, "keys": keys}
     if n_requests >= 2 and rnd.random() < 0.12:
         # result objects must not be shared between evaluations: one evaluation is won by a trailing bare modal mark
         # (all conditional parts unfulfilled), others evaluate bare indicators - before, after or at the same time
@@ -390,6 +420,36 @@ def summarise(scenario):
 
 
 # ------------------------------------------------------------------------------------------------------ oracle
+class _NoModel(Exception):
+    """the small model says nothing about this expression (packages, time conditions, undetermined keys)"""
+
+
+def _model_value(ast, cer):
+    """True / False, or "N" for an operand that is neutral (hints, format constraints)"""
+    kind = ast[0]
+    if kind == "k":
+        state = cer["requirement_constraints"].get(ast[1])
+        if state is None:
+            if ast[1] in cer["hints"] or ast[1] in cer["format_constraints"]:
+                return "N"
+            raise _NoModel
+        if state not in ("FULFILLED", "UNFULFILLED"):
+            raise _NoModel
+        return state == "FULFILLED"
+    if kind in ("p", "ub"):
+        raise _NoModel
+    left, right = _model_value(ast[1], cer), _model_value(ast[2], cer)
+    if kind in ("and", "ta"):
+        if left == "N":
+            return right
+        return left if right == "N" else (left and right)
+    if left == "N" and right == "N":
+        return "N"
+    if left == "N" or right == "N":
+        raise _NoModel
+    return (left or right) if kind == "or" else (left != right)
+
+
 def _direct_clause(request, outcome, world):
     """the pairing clause that can be stated without a reference run; returns None or a description"""
     if "ok" not in outcome:
@@ -423,10 +483,33 @@ def _direct_clause(request, outcome, world):
                 return f"evaluate_format_constraints: key {key} paired with {value}"
             if anonymous:
                 # the evaluator gave no message of its own: whatever text the library adds must be this key's
-                if value.get("error_message") is not None and key not in value["error_message"]:
+                # (a text that names no key at all pairs nothing wrongly)
+                named = set(re.findall(r"\d+", value.get("error_message") or ""))
+                if key not in named and named & {other for other in op["keys"] if other != key}:
                     return f"evaluate_format_constraints: key {key} carries the message of another key: {value}"
             elif value.get("error_message") != entry["error_message"]:
                 return f"evaluate_format_constraints: key {key} paired with {value}"
+    if op["op"] in ("rc_eval", "ahb_eval") and not op.get("drop"):
+        # "every condition key is paired with the value produced for it" inside an expression: the sampled run and its
+        # no-yield reference run the same code, so a mispairing that no schedule influences needs a value that does
+        # not come from the code - two-valued logic over the generated syntax tree where every key used is determined
+        parts = [("", op["ast"])] if op["op"] == "rc_eval" else op["parts"]
+        try:
+            values = [True if ast is None else _model_value(to_tuple(ast), cer) for _, ast in parts]
+        except _NoModel:
+            values = []
+        if values and all(isinstance(v, bool) for v in values):
+            chosen = next((i for i, v in enumerate(values) if v), len(values) - 1)
+            inner = result if op["op"] == "rc_eval" else (result or {}).get("requirement_constraint_evaluation_result")
+            got = inner.get("requirement_constraints_fulfilled") if isinstance(inner, dict) else "?"
+            if got is not values[chosen]:
+                return (f"{op['expr']!r} with {cer['requirement_constraints']}: requirement_constraints_fulfilled is "
+                        f"{got!r}, the keys' own values give {values[chosen]!r} (parts: {values})")
+            if op["op"] == "ahb_eval":
+                indicator = str(result.get("requirement_indicator")).split(".")[-1].upper()
+                if indicator != str(parts[chosen][0]).upper():
+                    return (f"{op['expr']!r} with {cer['requirement_constraints']}: indicator {indicator}, the keys' "
+                            f"own values select part {chosen} ({parts[chosen][0]}; parts: {values})")
     if op["op"] == "gather_mixed":
         expected = [f"{'A' if item[0] == 'a' else 'V'}{item[1]}@{rid.split('+')[0]}" for item in op["items"]]
         if result != expected:
